@@ -9,7 +9,8 @@ vars == <<c, done>>
 
 Cfgs == [scheme : {"http", "https"}, path : {"/metrics", "/m2"}, k1 : {"none", "one", "two"}]
 Ls == [addr : {"h1:80", "h1", "h2:9100", "[::1]", "[::1]:9100"}, scheme : {"", "http", "https"}, path : {"", "/x"},
-       p1 : {"", "v1", "x"}, p3 : {"", "z"}, inst : {"", "custom"}, app : {"", "a"}, gapp : {"", "g"}, bad : {"", "b"}, tmp : {"", "t"}]
+       p1 : {"", "v1", "x"}, p3 : {"", "z"}, inst : {"", "custom"}, app : {"", "a"}, gapp : {"", "g"}, bad : {"", "b"}, tmp : {"", "t"},
+       lk1 : {"", "m"}, sib : {"none", "noaddr", "badval"}]
 
 \* everything the hash may depend on: all labels after populateLabels, and the URL
 HashKey(cfg, L) ==
